@@ -133,7 +133,48 @@ T5 = {
  "C19-J": ("B", "the edit of C15-B (round: `>= INFINITE_POWER` -> `>`), found independently", "compact (decimal) or radix: values in [2^1024, 2^1025) parse to NaN, lossy and exact alike", ["C19"], ""),
 }
 
-ROUNDS = [(T3, "/tmp/mut", 3), (T4, "/tmp/mut4", 4), (T5, "/tmp/mut5", 5)]
+T6 = {
+ "C01-K": ("A", "one of the masks in the crate's own libm powf (0xfffff000 -> 0xffffff00)", "a compact build without `std`; f32; fast-path inputs whose power of ten is 10^9 or 10^10: `1e9` one ulp high", ["C01", "C16"], "C16 reported it at first (compact+nostd had just joined its quick plan); C01's own plan gained `compact+nostd`"),
+ "C01-L": ("B", "split_radix(10) = (5, 2) in the power-of-two-without-radix variant (20^k instead of 10^k)", "power-of-two without radix; decimal input on the big-integer slow path with a positive residual exponent", ["C01", "C16"], "C16 reported it at first; C01's own quick plan gained `pow2` (the cfg(all(power-of-two, not(radix))) copies of tables are a configuration of their own)"),
+ "C02-K": ("A", "f32 compute_mul_parity loses its `as u32` truncation (the integer flag is always false)", "non-compact; f32; even-mantissa integers in [2^25, 2^30) whose lower midpoint is a round decimal: one or two digits too many (round trip intact)", ["C02"], ""),
+ "C02-L": ("B", "the radix build passes the signed `self` instead of the absolute value to the decimal back-end", "feature radix with debug assertions: every negative finite float panics; invisible in release", ["C02", "C09"], "C09 (radix+format:checked) reported it at first; the value checks of the writers (C02, C03, C06, C07, C14, C15) now also run in checked-profile builds that exist anyway"),
+ "C03-K": ("A", "step.rs min_step_14 (u64) 16 -> 17", "feature radix without compact; radix 14; u128/i128 above u64::MAX: a spurious 0 per chunk", ["C03"], ""),
+ "C03-L": ("B", "moderate_u128_divrem subtracts the low halves unchecked", "overflow-checked builds; feature radix; 12 radices using the moderate path; u128/i128 above u64::MAX whose low halves borrow: panic", ["C03", "C09"], "as C02-L (C09 at first; C03 gained radix+format:checked)"),
+ "C04-K": ("A", "is_valid_radix (power-of-two branch) excludes 32", "power-of-two without radix; radix 32: every parse returns InvalidMantissaRadix", ["C04", "C18"], "C18 reported it at first. C04 would have *skipped* the format (its job list takes the formats the library calls valid): every check now reports a compiled format that is valid by the documented rules but rejected by the library"),
+ "C04-L": ("B", "Number::IS_SIGNED true for usize", "usize with a leading '-': `-1` -> Ok(usize::MAX)", ["C04"], ""),
+ "C05-K": ("A", "min_step / max_step crossed for radix 8 in the power-of-two-without-radix block", "power-of-two without radix; radix 8; 22+ significant digits with leading digit 2-7: the top bits are dropped", ["C05"], ""),
+ "C05-L": ("B", "slow_binary no longer skips the leading zeros of the integer part", "power-of-two radices; more digits than fit 64 bits on a midpoint; at least one leading 0 (also the plain `0.`)", ["C05"], ""),
+ "C06-K": ("A", "binary positional writer takes bits-per-digit from the exponent base", "mixed-base formats; positional notation; |x| >= 1: hex `2.0` -> `10.0`", ["C06"], ""),
+ "C06-L": ("B", "`(mantissa_bits - 1) as i32` on a usize that is 0 for zero", "overflow-checked builds; power-of-two same-base formats; +-0.0 panics", ["C06", "C09"], "as C02-L (C09 pow2:checked at first; C06 gained pow2:checked)"),
+ "C07-K": ("A", "write_exponent writes magnitudes below 10 directly as '0' + exp", "radix 3, 5, 6, 7, 9; exponent notation with radix <= |exp| <= 9: a character outside the radix alphabet", ["C07"], ""),
+ "C07-L": ("B", "table_radix::get_table: 35 => the radix-36 table", "feature radix without compact; radix 35; exponents of magnitude >= 35 (f64 beyond 1e54 / below 3e-53)", ["C07"], ""),
+ "C08-K": ("A", "hex scale_sci_exp divides before multiplying", "power-of-two; mantissa radix 16 with exponent base 4; odd hex-digit exponents: 16 times off", ["C08"], ""),
+ "C08-L": ("B", "Grisu normalized_boundaries compares with the f64 hidden bit for every type (cf. C16-C)", "feature compact; f32; 23 powers of two read back as the predecessor", ["C08", "C02"], "C08's quick plan had no compact build (C02 reports the same edit); `compact` added"),
+ "C09-K": ("A", "no-std libm floorf without the `e >= 23` early return (shift by >= 32)", "no-std; feature radix; generic radix; f32 >= 2^32: overflow-check panic in debug, wrong digits in release", ["C07"], "reported by C07 (radix+nostd, wrong digits); C09 itself only sees the panic in a checked no-std radix build, which is in its thorough plan now (`radix+nostd:checked`)"),
+ "C09-L": ("B", "compact integer writer's scratch buffer sized u64::FORMATTED_SIZE (20 without power-of-two)", "feature compact without power-of-two / radix; u128/i128 >= 1e20: panic with the documented buffer", ["C09"], ""),
+ "C10-K": ("A", "StackVec::from_u32 pushes inside a debug_assert!", "release builds; feature radix; odd radix; values >= 1 near a tie: the denominator is empty, large_quorem asserts", ["C10", "C05"], ""),
+ "C10-L": ("B", "can_try_parse_multidigits gated on `not(radix)` (cf. C04-D)", "power-of-two without radix; no_multi_digit(false); radix 16/32: debug assertion, wrong values in release", ["C10", "C04"], "C04 (pow2) reported the release values at first; C10 had no power-of-two build with assertions: `pow2:checked` joined the C09 and C10 quick plans"),
+ "C11-K": ("A", "the edit of C04-I (skip.rs take_n relative indices) under the partial/complete property", "feature format; sign or prefix in front of the digits; first non-digit inside the unchecked window: partial count short", ["C11"], ""),
+ "C11-L": ("B", "NumberFormat::required_mantissa_digits() returns REQUIRED_EXPONENT_DIGITS (the const is still right)", "feature format; formats with required_exponent_digits(false) (JAVASCRIPT_STRING, XML ...): complete `inf`, partial (0.0, 0)", ["C11"], ""),
+ "C12-K": ("A", "NumberFormatBuilder::rebuild reads no_float_leading_zeros from the integer flag", "feature format; a format derived through rebuild(base) where base has exactly one of the two leading-zero flags", ["C18"], "reported by C18 (getter / rebuild round trip). C12 takes the packed format as the ground truth of its reference grammar, so a builder that produces other bits than intended is by construction C18's business"),
+ "C12-L": ("B", "format_error_impl tests NO_POSITIVE_EXPONENT_SIGN together with REQUIRED_MANTISSA_SIGN", "feature format; required_mantissa_sign + no_positive_exponent_sign: a valid format is rejected for every input", ["C12", "C18"], ""),
+ "C13-K": ("A", "indexing!(@prevc) ends in a plain `index - 1`", "overflow-checked builds; feature format; consecutive modes IC/LC/ILC/ITC/LTC; a separator run at byte 0: panic", ["C13", "C10"], "C10 (radix+format:checked) reported it at first; C13 gained the same build"),
+ "C13-L": ("B", "the reverse of repair #38 (ExponentDigitsIterator judges neighbours in the mantissa radix)", "mantissa radix != exponent radix; restricted exponent separator modes", ["C13"], ""),
+ "C14-K": ("A", "compact write_float_scientific: the one-digit branch precedes the min_significant_digits padding", "feature compact; min_significant_digits >= 3; exponent notation; one significant digit: `1.0e20` instead of `1.0000e20`", ["C14"], ""),
+ "C14-L": ("B", "binary truncate_and_round: above_halfway uses >=", "power-of-two radices; Round; an exact tie with an even kept digit is rounded up (radix 2: 1.01b at 2 digits -> 1.1)", ["C14"], "pre-empted: the recorded finding c14_pow2_max_digits_applied_to_bits excused every value mismatch of a power-of-two radix under a digit limit; radix 2 (one bit per digit) is now excluded from it, and the unchanged tree passes"),
+ "C15-K": ("A", "is_special_eq (case-sensitive branch) no longer consumes trailing separators after a match", "feature format; case_sensitive_special + special_digit_separator; the special string followed by separators: `NaN_` rejected", ["C15"], "missed at first: the only format with both flags was compiled for f64 alone and the C15 streams took formats with both float types only; single-type formats are included now"),
+ "C15-L": ("B", "write_special debug-asserts `len < MAX_SPECIAL_STRING_LENGTH`", "builds with debug assertions; a nan/inf string of exactly 50 letters: panic", ["C15", "C09"], "as C02-L (C09 compact:checked at first; C15 gained radix+format:checked)"),
+ "C16-K": ("A", "f32_exponent_limit(10) (-10, 10) -> (-11, 11) in the power-of-two-without-radix copy", "power-of-two without radix; f32; scaled exponent -11 or 11..=18", ["C16"], ""),
+ "C16-L": ("B", "f32 MIN_EXPONENT_ROUND_TO_EVEN -17 -> -11", "non-compact; f32 exact ties with 12..16 fraction digits round up instead of to even", ["C16"], ""),
+ "C17-K": ("A", "truncate_and_round_decimal scans past the generated digits into the caller's buffer", "max_significant_digits, Round, an exact tie with an even kept digit: the result depends on what the buffer held (facade: zero-filled)", ["C17", "C14"], "pre-empted: the reference call of C17 wrote into a zero-filled buffer like the facade; it is now prefilled with ASCII zeros, so a writer that reads what it has not written answers differently on the two sides (C14 reports the wrong tie rounding through its 0xA5-filled buffers)"),
+ "C17-L": ("B", "isize written through usize whose decimal_signed override is gone (two sites)", "non-compact; negative isize through the facade: panic", ["C17"], ""),
+ "C18-K": ("A", "is_valid_ascii = is_ascii_whitespace || is_ascii_graphic (drops 0x0B)", "a punctuation byte equal to vertical tab", ["C18"], ""),
+ "C18-L": ("B", "is_valid_base_suffix gated on `format` alone", "format without power-of-two / radix; a packed format with a base suffix byte is reported valid", ["C18"], ""),
+ "C19-K": ("A", "a lossy shortcut in parse_partial skips the sign", "lossy; partial API; negative input past the exact fast path: `-1e100` -> (1e100, 6)", ["C19"], ""),
+ "C19-L": ("B", "the edit of C16-E / C05-H (compact int_pow in 32 bits), found independently", "feature compact; f64; decimal exponent 32..=37", ["C19"], ""),
+}
+
+ROUNDS = [(T3, "/tmp/mut", 3), (T4, "/tmp/mut4", 4), (T5, "/tmp/mut5", 5), (T6, "/tmp/mut6", 6)]
 
 
 def main():
